@@ -89,6 +89,11 @@ def check_xlarge(case, ctx):
             ctx.nontrivial({"n": case["n"], "m": case["m"], "cfg": cfg, "d": gen_digest(case["ds"])})
 
 
+def gen_mod():
+    from vf import gen
+    return gen
+
+
 def gen_digest(x):
     from vf import gen
     return gen.digest(x)
@@ -111,6 +116,16 @@ def check_case(case, ctx):
                 any_ilp = True
     if any_ilp:
         ctx.count("ilp_cases")
+    # two different datasets in a row whose position matrices have the same content and different shapes, through the same
+    # algorithm objects
+    if case["libseed"] % 4 == 0 and case.get("dcls") != "huge-component":
+        import random
+        A, Bt = gen_mod().reshape_twins(random.Random(case["libseed"]))
+        for twin in (A, Bt):
+            d_t = libx.mk_dataset(twin)
+            for cfg in ("Copeland", "ParCons", "BioConsert", "Exact", "KwikSort"):
+                ctx.count("runs_on_reshape_twins")
+                judge_run(ctx, cfg, d_t, twin, scheme, sch, True, case["libseed"], {"reshape_twins": [A, Bt]})
     # history: the same Dataset object is mutated in place (or a dataset derived from it is), then aggregated again by the
     # same algorithm objects; what it must return is judged against the rankings the Dataset holds now
     elems = ref.universe(ds)
@@ -179,6 +194,9 @@ def reach(counters, tier, info):
         v = counters.get("history:" + kind, 0)
         req = 25 if tier == "quick" else 250
         out.append({"name": f"histories whose step is {kind}", "observed": v, "required": req, "ok": v >= req})
+    v = counters.get("runs_on_reshape_twins", 0)
+    out.append({"name": "runs on reshape twins (same matrix content, other shape) in a row", "observed": v,
+                "required": 500 if tier == "quick" else 5000, "ok": v >= (500 if tier == "quick" else 5000)})
     v = counters.get("xlarge_returned", 0)
     out.append({"name": "consensuses over 63-1025 elements / 40-257 rankings judged", "observed": v,
                 "required": 20 if tier == "quick" else 80, "ok": v >= (20 if tier == "quick" else 80)})
